@@ -1,0 +1,35 @@
+//go:build verif
+
+package tls
+
+import "errors"
+
+// VerifSendKeyUpdate makes c send a TLS 1.3 KeyUpdate message (with or without
+// update_requested) and then switch its own sending keys, as a conforming peer
+// does. Verification hook for post-handshake scenarios; add-only.
+func VerifSendKeyUpdate(c *Conn, requested bool) error {
+	c.out.Lock()
+	defer c.out.Unlock()
+	if c.vers != VersionTLS13 {
+		return errors.New("verif: KeyUpdate needs TLS 1.3")
+	}
+	suite := cipherSuiteTLS13ByID(c.cipherSuite)
+	if suite == nil {
+		return errors.New("verif: no TLS 1.3 suite")
+	}
+	msg := &keyUpdateMsg{updateRequested: requested}
+	if _, err := c.writeRecordLocked(recordTypeHandshake, msg.marshal()); err != nil {
+		return err
+	}
+	c.out.setTrafficSecret(suite, suite.nextTrafficSecret(c.out.trafficSecret))
+	return nil
+}
+
+// VerifSendHandshakeBytes makes c send raw bytes in handshake records under
+// its current write keys (a post-handshake message of the harness's choosing).
+func VerifSendHandshakeBytes(c *Conn, raw []byte) error {
+	c.out.Lock()
+	defer c.out.Unlock()
+	_, err := c.writeRecordLocked(recordTypeHandshake, raw)
+	return err
+}
